@@ -48,6 +48,7 @@ static BQ* setup(uint64_t pos, uint64_t used)
 {
   ThreadContext* tc = &g_c.c;
   BQ* q = &tc->_spsc_queue_union.bounded_spsc_queue;
+  for (uint32_t i = 0; i < 2 * QCAP; i++) g_storage[i] = 0x5A;       // recycled queue memory: whatever earlier records left, never zeros
   const_cast<size_t&>(q->_capacity) = QCAP; const_cast<size_t&>(q->_mask) = QCAP - 1; const_cast<size_t&>(q->_bytes_per_batch) = QCAP / 20;
   *const_cast<std::byte**>(&q->_storage) = reinterpret_cast<std::byte*>(g_storage);
   *reinterpret_cast<size_t*>(&q->_atomic_writer_pos) = pos; q->_writer_pos = pos; q->_writer_pos_cache = pos;
